@@ -928,8 +928,11 @@ class BaseModel(ModelInterface):
                 empty_df_like_ests = pd.DataFrame(
                     [], index=ix, columns=estimations.columns
                 )
+                # (a same visit requested several times was only estimated once per distinct
+                # row here: drop duplicates so that the join does not multiply the rows)
                 estimations = empty_df_like_ests[[]].join(
-                    estimations, on=["ID", "TIME"]
+                    estimations[~estimations.index.duplicated(keep="first")],
+                    on=["ID", "TIME"],
                 )
 
         return estimations
